@@ -824,6 +824,9 @@ def shape_andor(rng):
         gs.append(("and", (a, b)))
     if rng.random() < 0.5:
         gs.append(("not", rng.choice(gs[:n])))
+    # a hypothesis must not leak to the conjuncts that follow its `if`
+    h, g1 = rng.sample(gs[:n], 2)
+    gs.append(("and", (("if", (((), h[1], ()),), g1), rng.choice([h, g1, ("not", h)]))))
     pr = permute(pr, rng)          # the engines are sensitive to impl and where-clause order
     return pr
 
@@ -873,6 +876,54 @@ def shape_size_boundary(rng, sizes=(4, 5, 6, 9, 10, 29, 30)):
             if v == 2 and s > 12:
                 continue          # variant 2 walks the whole tower: keep it within overflow depth
             goals.append(("atom", ("Foo", (_nest("V", s - 1, adt(base)),))))
+    pr.fixed_goals = goals
+    return pr
+
+
+def shape_multi_arg(rng):
+    """Multi-parameter structs whose GROUND impl headers differ in an earlier argument only /
+    in a later argument only / in both (2- and 3-parameter variants): aggregation of several
+    answers has to generalise every differing position (Definite guidance must cover all
+    solutions)."""
+    three = rng.random() < 0.4
+    adts = [Adt("X"), Adt("Y"), Adt("Z"), Adt("P", 3 if three else 2)]
+    k = 3 if three else 2
+    cs = [adt("X"), adt("Y"), adt("Z")]
+    base = [rng.choice(cs) for _ in range(k)]
+    mode = rng.choice(["earlier", "later", "both", "middle" if three else "earlier", "three-heads"])
+    heads = [tuple(base)]
+
+    def vary(h, positions):
+        h = list(h)
+        for i in positions:
+            h[i] = rng.choice([c for c in cs if c != h[i]])
+        return tuple(h)
+    if mode == "earlier":
+        heads.append(vary(base, [0]))
+    elif mode == "later":
+        heads.append(vary(base, [k - 1]))
+    elif mode == "both":
+        heads.append(vary(base, [0, k - 1]))
+    elif mode == "middle":
+        heads.append(vary(base, [1]))
+    else:
+        heads.append(vary(base, [0]))
+        heads.append(vary(base, [rng.randrange(k)]))
+    heads = list(dict.fromkeys(heads))
+    tr = [Trait("Foo")]
+    im = [Impl(0, ("Foo", (("adt", "P", h),))) for h in heads]
+    if rng.random() < 0.3:
+        tr.append(Trait("Bar"))
+        im.append(Impl(k, ("Bar", (("adt", "P", tuple(var(i) for i in range(k))),)), [("Foo", (("adt", "P", tuple(var(i) for i in range(k))),))]))
+    pr = Prog(adts, tr, im, "multi-arg-" + mode)
+    vs = tuple(range(10, 10 + k))
+    goals = [("exists", (1,), ("atom", ("Foo", (var(1),)))),
+             ("exists", vs, ("atom", ("Foo", (("adt", "P", tuple(var(v) for v in vs)),)))),
+             ("exists", vs[:1], ("atom", ("Foo", (("adt", "P", (var(vs[0]),) + tuple(base[1:])),)))),
+             ("exists", vs[-1:], ("atom", ("Foo", (("adt", "P", tuple(base[:-1]) + (var(vs[-1]),)),)))),
+             ("atom", ("Foo", (("adt", "P", heads[-1]),)))]
+    if len(tr) > 1:
+        goals.append(("exists", (2,), ("atom", ("Bar", (var(2),)))))
     pr.fixed_goals = goals
     return pr
 
@@ -949,7 +1000,7 @@ def shape_auto_mixed(rng):
 
 
 SHAPES = [shape_diamond, shape_ind_cycle, shape_mutual, shape_chain, shape_nested_chain, shape_poly_rec,
-          shape_overlap, shape_co_cycle, shape_co_scc, shape_growing, shape_auto, shape_auto_mixed, shape_random, shape_random, shape_random]
+          shape_overlap, shape_multi_arg, shape_co_cycle, shape_co_scc, shape_growing, shape_auto, shape_auto_mixed, shape_random, shape_random, shape_random]
 
 
 def gen_program(rng, shapes=None) -> Prog:
@@ -994,9 +1045,43 @@ class GoalGen:
     def ground_atom(self):
         return ("atom", self.atom())
 
+    def if_follow(self):
+        """`if (H) { G1 }, F..` where the followers F stand OUTSIDE the braces but would be provable
+        only with H (and `not` of such): hypotheses must not leak to later conjuncts.  Closed;
+        optionally under a `forall` (then without `not`, which only surrounds closed goals)."""
+        under_forall = self.rng.random() < 0.4
+        if under_forall:
+            v = self.fresh()
+            scope = (v,)
+            h = self.atom(scope, 1.0)
+        else:
+            scope = ()
+            h = self.atom()
+        ws = [a for a in self.p.adts if a.nparams == 1]
+        g1 = ("atom", h)
+        if ws and self.rng.random() < 0.6:
+            t = self.rng.choice(self.p.traits)
+            if t.nextra == 0:
+                g1 = ("atom", (t.name, (("adt", ws[0].name, (h[1][0],)),)))
+        followers = []
+        for _ in range(self.rng.choice([1, 1, 2])):
+            r = self.rng.random()
+            if r < 0.5:
+                followers.append(("atom", h))
+            elif r < 0.75:
+                followers.append(g1)
+            elif not under_forall:
+                followers.append(("not", ("atom", h)))
+            else:
+                followers.append(("atom", self.atom(scope, 0.8)))
+        g = ("and", tuple([("if", (((), h, ()),), g1)] + followers))
+        return ("forall", scope, g) if under_forall else g
+
     def closed(self, depth=2):
         """An exists-free closed goal."""
         r = self.rng.random()
+        if depth == 2 and r < 0.15:
+            return self.if_follow()
         if depth <= 0 or r < 0.35:
             return self.ground_atom()
         if r < 0.5:
